@@ -58,6 +58,13 @@ class Check:
     def standalone(self, space_name, payload, viol):
         return None
 
+    def pair_menu(self, tier):
+        """Optional: a small list of (space_name, runner_name, payload) representative cases.  The
+        runner then explores every ORDERED PAIR (A, B): A and B are run one after the other in the
+        same process and B must still hold - this decides state that leaks from one query to the
+        next (caches, interned nodes, registries).  Histories of length 2 over the menu."""
+        return None
+
     def finalize(self, agg):
         """Cross-case oracle over agg['custom'] = [(space, payload, custom)]: returns violations
         (dicts with kind, canon, msg, space, payload)."""
@@ -91,13 +98,38 @@ def _run_chunk(arg):
     for p in payloads:
         bind.reset_globals()
         try:
-            fn = getattr(_CHECK, runner) if runner else None
-            r = fn(p) if fn else _CHECK.run(space_name, p)
+            if runner == "_pair":
+                r = _run_pair(p)
+            else:
+                fn = getattr(_CHECK, runner) if runner else None
+                r = fn(p) if fn else _CHECK.run(space_name, p)
         except BaseException as e:  # a crash of the harness itself: never a verdict
             r = {"harness_error": f"{type(e).__name__}: {e}\n{traceback.format_exc()}",
                  "payload": _safe_render(space_name, p)}
         out.append((p, r))
     return space_name, out
+
+
+def _run_one(entry):
+    space_name, runner, payload = entry
+    fn = getattr(_CHECK, runner) if runner else None
+    return fn(payload) if fn else _CHECK.run(space_name, payload)
+
+
+def _run_pair(p):
+    i, j = p
+    menu = _CHECK._menu
+    a = _safe_render(menu[i][0], menu[i][2])
+    _run_one(menu[i])  # A: result ignored (A alone is covered by its own space)
+    r = _run_one(menu[j])  # B, in the state A left behind
+    r = dict(r)
+    r["viol"] = [dict(v, canon=f"after[{a}]|{v['canon']}", kind="after-another-query:" + v["kind"])
+                 for v in r.get("viol", ())]
+    r["nt"] = [f"after[{a}]|{c}" for c in r.get("nt", ())][:3]
+    r["sample_text"] = f"A = {a} ; then B = {_safe_render(menu[j][0], menu[j][2])}"
+    r.pop("custom", None)
+    r.pop("states", None)
+    return r
 
 
 def _safe_render(space_name, p):
@@ -121,8 +153,16 @@ def run_check(pid, tier, seed, only_space=None, collect=False, time_cap=None):
     check = load_check(pid)
     _CHECK = check
     spaces = check.spaces(tier)
+    menu = check.pair_menu(tier)
+    if menu:
+        check._menu = menu
+        spaces.append(Space("histories-of-2", {"menu": len(menu), "pairs": len(menu) ** 2,
+                                               "oracle": "B after A must behave like B alone"},
+                            [(i, j) for i in range(len(menu)) for j in range(len(menu))], runner="_pair"))
     if only_space:
         spaces = [s for s in spaces if s.name in only_space]
+    pair_space = [s for s in spaces if s.name == "histories-of-2"]
+    spaces = [s for s in spaces if s.name != "histories-of-2"]
     rng = random.Random(seed)
 
     work = []
@@ -189,10 +229,75 @@ def run_check(pid, tier, seed, only_space=None, collect=False, time_cap=None):
                 capped = True
                 break
 
+    if pair_space:
+        pairs = list(pair_space[0].cases)
+        space_info["histories-of-2"] = {"bounds": pair_space[0].bounds, "cases": len(pairs)}
+        rng.shuffle(pairs)
+        for results in _run_pairs_in_fresh_processes(pid, tier, pairs):
+            merge("histories-of-2", results)
+
     if collect:
         return check, agg, space_info
 
     return finish(check, tier, seed, agg, space_info, capped, t0)
+
+
+def _run_pairs_in_fresh_processes(pid, tier, pairs):
+    """Each batch of pairs goes to a freshly started interpreter that has never run a query; inside
+    it every pair runs in its own forked child, so no pair sees state left by another one."""
+    import pickle
+    import tempfile
+
+    nb = max(1, min(NPROC, len(pairs) // 8 or 1))
+    batches = [pairs[i::nb] for i in range(nb)]
+    procs = []
+    with tempfile.TemporaryDirectory(prefix="fadlmc_pairs_") as td:
+        for i, b in enumerate(batches):
+            inp, outp = os.path.join(td, f"in{i}.pkl"), os.path.join(td, f"out{i}.pkl")
+            with open(inp, "wb") as f:
+                pickle.dump(b, f)
+            procs.append((subprocess.Popen([sys.executable, "-m", "fadlmc", "pairs", pid, tier, inp, outp], cwd=VERIF),
+                          outp))
+        for pr, outp in procs:
+            rc = pr.wait()
+            if rc != 0 or not os.path.exists(outp):
+                raise RuntimeError(f"pair worker failed rc={rc}")
+            with open(outp, "rb") as f:
+                yield pickle.load(f)
+
+
+def pairs_worker(pid, tier, inp, outp):
+    import pickle
+
+    global _CHECK
+    check = load_check(pid)
+    _CHECK = check
+    check._menu = check.pair_menu(tier)
+    with open(inp, "rb") as f:
+        pairs = pickle.load(f)
+    out = []
+    for p in pairs:
+        r, w = os.pipe()
+        child = os.fork()
+        if child == 0:
+            os.close(r)
+            try:
+                bind.reset_globals()
+                res = _run_pair(p)
+                res = {k: (list(v) if isinstance(v, set) else v) for k, v in res.items()}
+            except BaseException as e:
+                res = {"harness_error": f"{type(e).__name__}: {e}\n{traceback.format_exc()}", "payload": repr(p)}
+            with os.fdopen(w, "wb") as f:
+                pickle.dump(res, f)
+            os._exit(0)
+        os.close(w)
+        with os.fdopen(r, "rb") as f:
+            data = f.read()
+        os.waitpid(child, 0)
+        out.append((p, pickle.loads(data)))
+    with open(outp, "wb") as f:
+        pickle.dump(out, f)
+    return 0
 
 
 def finish(check, tier, seed, agg, space_info, capped, t0):
@@ -218,7 +323,9 @@ def finish(check, tier, seed, agg, space_info, capped, t0):
     # ---- classify violations
     hit = Counter()
     new = {}
-    for v in sorted(agg["viol"], key=lambda v: (len(v["canon"]), v["canon"], v["kind"])):
+    # violations of the explicit two-query histories first: they replay in a fresh process even when the
+    # cause is state leaking between queries (which also shows up, unreproducibly, in the ordinary spaces)
+    for v in sorted(agg["viol"], key=lambda v: (v["space"] != "histories-of-2", len(v["canon"]), v["canon"], v["kind"])):
         k = vkey(pid, v["canon"], v["kind"])
         if k in known:
             hit[known[k]["id"]] += 1
@@ -235,6 +342,8 @@ def finish(check, tier, seed, agg, space_info, capped, t0):
         rdir = os.path.join(os.environ.get("FADLMC_REPLAY_DIR", os.path.join(VERIF, "replays")), pid)
         os.makedirs(rdir, exist_ok=True)
         shown = 0
+        confirmed = os.environ.get("FADLMC_NO_CONFIRM") == "1"
+        tried = 0
         for k, v in new.items():
             if shown >= 8:
                 break
@@ -242,24 +351,33 @@ def finish(check, tier, seed, agg, space_info, capped, t0):
             rep = {
                 "property": pid, "key": k, "space": v["space"], "payload": v["payload"],
                 "kind": v["kind"], "canon": v["canon"], "message": v.get("msg", ""),
-                "rendered": _safe_render(v["space"], v["payload"]),
-                "standalone": check.standalone(v["space"], v["payload"], v),
+                "rendered": _safe_render(v["space"], v["payload"]) if v["space"] != "histories-of-2" else v["canon"],
+                "standalone": check.standalone(v["space"], v["payload"], v) if v["space"] != "histories-of-2" else None,
             }
             with open(path, "w") as f:
                 json.dump(rep, f, indent=1, default=repr)
-            if shown < 2 and os.environ.get("FADLMC_NO_CONFIRM") != "1":
+            if not confirmed:
                 # confirm in a fresh process before trusting the failure
+                tried += 1
                 pr = subprocess.run([sys.executable, "-m", "fadlmc", "replay", path],
                                     cwd=VERIF, capture_output=True, text=True)
-                if pr.returncode != 1:
-                    sys.stderr.write(f"HARNESS ERROR: replay of {path} in a fresh process did not "
-                                     f"reproduce (rc={pr.returncode})\n{pr.stdout}\n{pr.stderr}\n")
+                if pr.returncode == 1:
+                    confirmed = True
+                elif tried >= 6:
+                    sys.stderr.write(f"HARNESS ERROR: replays in a fresh process did not reproduce "
+                                     f"(last rc={pr.returncode})\n{pr.stdout}\n{pr.stderr}\n")
                     write_evidence(check, tier, seed, agg, space_info, capped, t0, len(new), hit,
                                    note="replay disagreement")
                     return 2
+                else:
+                    continue
             print(f"VIOLATION property={pid} replay={path}")
             print(f"   kind={v['kind']} case={rep['rendered'][:300]!r} :: {str(v.get('msg',''))[:300]}")
             shown += 1
+        if not shown:
+            sys.stderr.write("HARNESS ERROR: no violation could be confirmed in a fresh process\n")
+            write_evidence(check, tier, seed, agg, space_info, capped, t0, len(new), hit, note="replay disagreement")
+            return 2
         if len(new) > shown:
             print(f"   ... and {len(new) - shown} further distinct violating inputs (replays not written)")
         rc = 1
@@ -332,9 +450,13 @@ def replay(path):
     if isinstance(payload, list):
         payload = _tuplify(payload)
     bind.reset_globals()
-    sp = [s for s in check.spaces("thorough") if s.name == rep["space"]]
-    runner = sp[0].runner if sp else None
-    r = getattr(check, runner)(payload) if runner else check.run(rep["space"], payload)
+    if rep["space"] == "histories-of-2":
+        check._menu = check.pair_menu("thorough")
+        r = _run_pair(payload)
+    else:
+        sp = [s for s in check.spaces("thorough") if s.name == rep["space"]]
+        runner = sp[0].runner if sp else None
+        r = getattr(check, runner)(payload) if runner else check.run(rep["space"], payload)
     for v in r.get("viol", ()):
         if vkey(check.pid, v["canon"], v["kind"]) == rep["key"]:
             print(f"REPRODUCED property={check.pid} kind={v['kind']} :: {v.get('msg','')}")
